@@ -55,6 +55,14 @@ def frame_zoo(rng):
                                                                   axes_names=("", "")), 2))
     out.append(("frame2d/blank-names", lambda: cf.Frame2D(name="focal", axes_order=(0, 1), unit=(u.mm, u.mm), axes_names=None), 2))
     out.append(("spectral/partly-blank", lambda: cf.SpectralFrame(axes_order=(0,), unit=(u.um,), name="spec", axes_names=("",)), 1))
+    # units that differ from the constructors' defaults, including the dimensionless unit (a falsy-looking value for a writer's shortcut)
+    out.append(("frame2d/dimensionless", lambda: cf.Frame2D(name="focal", axes_order=(0, 1), unit=(u.one, u.one)), 2))
+    out.append(("frame2d/default-units", lambda: cf.Frame2D(name="focal"), 2))
+    out.append(("frame2d/mixed-dimensionless", lambda: cf.Frame2D(name="focal", unit=(u.one, u.pix)), 2))
+    out.append(("generic/dimensionless", lambda: cf.CoordinateFrame(1, ("SPATIAL",), (0,), unit=(u.one,), name="gen1"), 1))
+    out.append(("celestial/arcsec", lambda: cf.CelestialFrame(reference_frame=coord.ICRS(), name="sky", unit=(u.arcsec, u.arcsec)), 2))
+    out.append(("celestial/rad-deg", lambda: cf.CelestialFrame(reference_frame=coord.ICRS(), name="sky", unit=(u.rad, u.deg)), 2))
+    out.append(("temporal/days", lambda: cf.TemporalFrame(Time("2020-05-01T00:00:00"), unit=(u.d,), axes_order=(0,), name="time"), 1))
     out.append(("name-only", lambda: "world", 2))
     return out
 
